@@ -315,6 +315,10 @@ def replay(path):
             print("VIOLATION property=C20 replay=%s" % path)
             return 1
         return 0
+    if obj.get("kind") == "model" and not os.path.exists(os.path.join(run.SPEC, obj["cfg"])) and not os.path.isabs(obj["cfg"]):
+        print(obj.get("output", ""))
+        print("VIOLATION property=%s replay=%s" % (obj.get("property", "?"), path))
+        return 1
     if obj.get("kind") == "model":
         work = run.Work("replay")
         res = run.run_model(work, obj["module"], obj["cfg"])
